@@ -21,7 +21,7 @@ func init() {
 			"which encode set each component writer uses (TAB-component); strconv never sees unvalidated text; exactly one bracket pair is stripped (FLOW-strconv, FLOW-brackets)",
 			"the IPv6 serializer prints the standard's pieces, separators and '::' for each of the 256 zero/non-zero patterns of the pieces (TAB-ipv6ser)",
 			"after reading the text the IPv6 parser fails / arranges the pieces around '::' / adds the brackets as the standard does, in each of its 45 end states (TAB-ipv6place)",
-		, "the Windows drive-letter quirk of the path state stands under url.scheme == file and an empty path as well as under the drive-letter test (OPT-drivequirk)"},
+			"the Windows drive-letter quirk of the path state stands under url.scheme == file and an empty path as well as under the drive-letter test (OPT-drivequirk)"},
 		NotDecided:  []string{"per-character behaviour inside a state beyond these facts", "IPv4/IPv6 arithmetic, the hex text of a piece", "path shortening details and drive-letter quirks", "IDNA mapping"},
 		Assumptions: append([]string{"/verif/spec/basecopies.json, failpoints.json, sets.json are faithful transcriptions of the standard's snapshot"}, commonAssumptions...)})
 	describe(&PropertyDoc{ID: "C02",
@@ -31,7 +31,7 @@ func init() {
 			"base is never dereferenced when nil; url.query is non-nil wherever stored through; a parse returns a non-nil URL or a non-nil error (SM-base, SM-query, SM-result)",
 			"every index/slice expression, nullable-field dereference, type assertion, loop and library call with a panicking contract is discharged by a dominating fact, an idiom, or a reviewed invariant (PF-*)",
 			"a pointer or interface obtained together with an error or an ok flag is dereferenced only where the branch facts establish err == nil / ok, per incoming edge and through value/error phi pairs (PF-errnil)",
-		, "a reviewed index invariant that counts on obligations of another rule (the IPv6 piece index on the reading loop's thresholds) holds only while those are discharged; the lazily created parameter list is non-nil wherever a field of it is touched or a method called on it (PF-nil)"},
+			"a reviewed index invariant that counts on obligations of another rule (the IPv6 piece index on the reading loop's thresholds) holds only while those are discharged; the lazily created parameter list is non-nil wherever a field of it is touched or a method called on it (PF-nil)"},
 		NotDecided:  []string{"stack/heap exhaustion", "panics inside dependencies on valid arguments", "the hand-proved invariants of /verif/tables/index.json (listed as assumptions)"},
 		Assumptions: commonAssumptions})
 	describe(&PropertyDoc{ID: "C03",
